@@ -558,6 +558,19 @@ func stopPlans(l *Log, start Pos, r *rand.Rand, stride int) []AttemptPlan {
 			a.HandlerBlock = k
 			a.CancelAtPkt = i
 			out = append(out, a)
+			// the handler keeps running for a while after the cancellation: Stream must not return before it does
+			b := a
+			b.ReleaseDelayMs = 60
+			out = append(out, b)
+		}
+		// the context is cancelled while handler k is running (from inside it) and the handler goes on for a while
+		for _, pacing := range []string{"burst", "lockstep"} {
+			c := defaultAttempt()
+			c.Pacing = pacing
+			c.End = "idle"
+			c.CancelAtTx = k
+			c.ReleaseDelayMs = 60
+			out = append(out, c)
 		}
 	}
 	// the caller cancels its context after Stream returned (e.g. a deferred cancel) and then asks Error()
